@@ -916,6 +916,9 @@ def _sign(e, env):
     return 'any'
 
 
+_FOLD = [None]      # (repo, module) of the function being scanned: named thresholds fold to numbers
+
+
 def _refine(test, env_true, env_false):
     """`X > 0`, `X != 0`, `X` (truthiness) make a non-negative X positive on the true side;
     `X == 0`, `X <= 0`, `not X` on the false side"""
@@ -925,10 +928,9 @@ def _refine(test, env_true, env_false):
     if isinstance(t, ast.Name):
         name, positive_when = t.id, True
     elif isinstance(t, ast.Compare) and len(t.ops) == 1 and isinstance(t.left, ast.Name) and \
-            isinstance(t.comparators[0], ast.Constant) and \
-            isinstance(t.comparators[0].value, (int, float)) and t.comparators[0].value >= 0:
+            _threshold(t.comparators[0]) is not None:
         name = t.left.id
-        c = t.comparators[0].value
+        c = _threshold(t.comparators[0])
         if isinstance(t.ops[0], ast.Gt) or (isinstance(t.ops[0], ast.NotEq) and c == 0) or \
                 (isinstance(t.ops[0], ast.GtE) and c > 0):
             positive_when = True            # X > c >= 0  /  X != 0  /  X >= c > 0
@@ -943,6 +945,22 @@ def _refine(test, env_true, env_false):
     tgt = env_true if positive_when else env_false
     if tgt.get(name) == 'nonneg':
         tgt[name] = 'pos'
+
+
+def _threshold(e):
+    """a non-negative numeric threshold: a literal, or a module-level constant that folds"""
+    if isinstance(e, ast.Constant) and isinstance(e.value, (int, float)) and \
+            not isinstance(e.value, bool):
+        return e.value if e.value >= 0 else None
+    if isinstance(e, (ast.Name, ast.Attribute)) and _FOLD[0] is not None:
+        repo, mod = _FOLD[0]
+        try:
+            v = repo.fold(e, mod)
+        except (ValueError, TypeError):
+            return None
+        if isinstance(v, (int, float)) and not isinstance(v, bool) and v >= 0:
+            return v
+    return None
 
 
 def div_zero(ctx, modules=('kalman',), floor=1):
@@ -1014,7 +1032,11 @@ def div_zero(ctx, modules=('kalman',), floor=1):
     ctx.floor('DIV-ZERO', len(fs), floor, 'functions')
     for f in fs:
         ctx.touch(f)
-        scan(f)
+        _FOLD[0] = (ctx.repo, f.module)
+        try:
+            scan(f)
+        finally:
+            _FOLD[0] = None
     # positive fixture: the engine must see the unguarded quotient of two norms
     src = ("def g(F, Q):\n    qn = np.linalg.norm(Q, 1)\n"
            "    s = np.linalg.norm(F, 1) / qn if qn > 0 else 1.0\n    return (F * s) / s\n")
